@@ -318,10 +318,17 @@ enum EP {
 
 // ------------------------------------------------------------------ lazily memoised source list
 
+type Coro = generator::LocalGenerator<'static, (), Option<Box<dyn std::any::Any>>>;
+
+thread_local! {
+    /// finished coroutines (their stacks are reused: creating a stack costs two system calls)
+    static CORO_POOL: RefCell<Vec<Coro>> = RefCell::new(Vec::new());
+}
+
 struct Lazy<A: 'static> {
     items: RefCell<Vec<A>>,
     end: RefCell<Option<Ctl>>,
-    gen: RefCell<Option<generator::LocalGenerator<'static, (), Option<A>>>>,
+    gen: RefCell<Option<Coro>>,
 }
 
 impl<A: Clone + 'static> Lazy<A> {
@@ -329,18 +336,31 @@ impl<A: Clone + 'static> Lazy<A> {
     fn new(produce: impl FnOnce(&dyn Fn(A) -> Ctl) -> Ctl + 'static) -> Rc<Self> {
         let me = Rc::new(Lazy { items: RefCell::new(vec![]), end: RefCell::new(None), gen: RefCell::new(None) });
         let weak = Rc::downgrade(&me);
-        let g = generator::Gn::<()>::new_scoped_opt_local(0x80000, move |mut s| {
-            let sp: *mut generator::Scope<'_, '_, (), Option<A>> = &mut s;
-            let r = produce(&|a| {
-                // SAFETY: `s` outlives this closure; the coroutine is single-threaded
-                unsafe { (*sp).yield_with(Some(a)) };
-                Ctl::Cont
-            });
-            if let Some(me) = weak.upgrade() {
-                *me.end.borrow_mut() = Some(r);
+        fn body<A: Clone + 'static>(
+            produce: impl FnOnce(&dyn Fn(A) -> Ctl) -> Ctl + 'static,
+            weak: std::rc::Weak<Lazy<A>>,
+        ) -> impl for<'s, 'b> FnOnce(generator::Scope<'s, 'b, (), Option<Box<dyn std::any::Any>>>) -> Option<Box<dyn std::any::Any>> + 'static {
+            move |mut s| {
+                let sp: *mut generator::Scope<'_, '_, (), Option<Box<dyn std::any::Any>>> = &mut s;
+                let r = produce(&|a| {
+                    // SAFETY: `s` outlives this closure; the coroutine is single-threaded
+                    unsafe { (*sp).yield_with(Some(Box::new(a) as Box<dyn std::any::Any>)) };
+                    Ctl::Cont
+                });
+                if let Some(me) = weak.upgrade() {
+                    *me.end.borrow_mut() = Some(r);
+                }
+                None
             }
-            None
-        });
+        }
+        let body = body(produce, weak);
+        let g = match CORO_POOL.with(|p| p.borrow_mut().pop()) {
+            Some(mut g) => {
+                g.scoped_init(body);
+                g
+            }
+            None => generator::Gn::<()>::new_scoped_opt_local(0x80000, body),
+        };
         *me.gen.borrow_mut() = Some(g);
         me
     }
@@ -364,13 +384,22 @@ impl<A: Clone + 'static> Lazy<A> {
             }
             let next = self.gen.borrow_mut().as_mut().and_then(|g| g.resume());
             match next {
-                Some(Some(a)) => self.items.borrow_mut().push(a),
+                Some(Some(a)) => self.items.borrow_mut().push(*a.downcast::<A>().expect("item type")),
                 _ => {
                     if self.end.borrow().is_none() {
                         *self.end.borrow_mut() = Some(Ctl::Cont);
                     }
-                    // drop the finished coroutine
-                    self.gen.borrow_mut().take();
+                    // keep the finished coroutine's stack for reuse
+                    if let Some(g) = self.gen.borrow_mut().take() {
+                        if g.is_done() {
+                            CORO_POOL.with(|p| {
+                                let mut p = p.borrow_mut();
+                                if p.len() < 64 {
+                                    p.push(g)
+                                }
+                            });
+                        }
+                    }
                 }
             }
         }
@@ -857,6 +886,8 @@ impl<'s> M<'s> {
                 k(pv.clone())
             }),
             ("bomb", []) => {
+                // the harness native has no path implementation: it fails without running
+                value_only!();
                 self.st.log(Ev::Bomb);
                 Ctl::Err(ErrV::User(rv::s(crate::jq::BOMB_MSG)))
             }
